@@ -76,6 +76,7 @@ func c06Build(k *c06Keys, r *mrand.Rand, win map[string]world.Window) *world.Wor
 	w.Q.SignQE(k.leaf)
 	w.Tcb = world.HonestTcbInfo(k.p)
 	w.Qe = world.HonestQeID(w.Q.QeReport)
+	w.Tcb.TimeStyle, w.Qe.TimeStyle = r.Intn(6), r.Intn(6) // nextUpdate in any legal RFC 3339 spelling (offsets, fractions)
 	far := world.Far.NotAfter
 	w.Tcb.NextUpdate, w.Qe.NextUpdate = far, far
 	if x, ok := win["tcbinfo-doc"]; ok {
